@@ -350,6 +350,8 @@ def run_check(modname, tier, replay_path=None, jobs=None):
         % (prop, tier, agg.evaluations, len(agg_nontrivial), len(agg.outcomes), agg.states,
            agg.transitions, done, ntasks, exhaustive, wall, len(violations), dict(known_hits))
     )
+    if vio_lines:
+        return 1  # at least one violation was confirmed by its replay
     if harness_errors or unstable:
         return 2
     return 1 if violations else 0
